@@ -556,6 +556,8 @@ class PrioritizedReplayBuffer(LAP):
             high=(np.arange(batch_size) + 1) * segment,
             size=batch_size
         )
+        # the upper end of the last segment can round above the total
+        random_points = np.minimum(random_points, probabilities[-1])
 
         self.priority.sampled_indices = np.searchsorted(
             probabilities, random_points
